@@ -21,9 +21,10 @@ CORR = (" The part not proved is decided by the correspondence check plus the pr
         "as a violation (with a concrete failing trace when the oracle finds one, else no-failing-input-found).")
 
 P = {
- "C01": ("proof", "Props/C01.v, all configurations, populations and schedules of the micro-step model: head = number of claimed values (mod 2^63) in every reachable state; every step leaves the claim log alone or appends exactly the claiming send's value; the single-writer path's loaded head is still current when it stores (rests on the proved writers-count invariant and the control invariant). PARTIAL: 'each stream delivers exactly the log segment from its start position' (slot/tag/cursor invariant I4-I7 of the design) is not proved." + CORR),
- "C02": ("proof", "Props/C02.v: a single claim log that no step of any execution reorders, rewrites or shortens (append-only), whose length is the head counter; the order of accepted values is fixed at the claiming steps; every commit of a consumer moves its stream's cursor from p to exactly p+1 (also on the plain-store paths of single-consumer handles, by the proved sole-consumer invariant), so positions are handed out in order. PARTIAL: delivery along this log per stream is not proved (see C01); producer order, real-time order and per-consumer monotonicity are checked by the oracle." + CORR),
+ "C01": ("proof", "Props/C01.v, all configurations, populations and interleavings of micro-steps of the model (states in the middle of calls included): head = number of claimed values (mod 2^63); every step leaves the claim log alone or appends exactly the claiming send's value; the single-writer path's loaded head is still current when it stores; for every stream the positions it has delivered, in delivery order, are consecutive and end just before its cursor (each position once, in order, no gap); on the move-out flavour (MPMC, views included) every recorded delivery for position p handed over exactly the p-th claimed value; on every flavour a consumer at its committing step whose cursor is its attempt position holds the p-th claimed value (broadcast: the source its clone was made from); a slot whose tag is a position holds that position's value unless a writer is between its cell write and its tag store. The delivery theorems are over mreachN (every execution without the publishing step of known finding F11, named by the predicate f11_bad; see C03) and assume fewer than 2^62 handles ever created and values ever claimed. PARTIAL: that a broadcast clone stays a clone of that source while the clone runs (pin invariant, C04) and the 2^63 wrap-around are not proved; 'accepted by a send' = 'claimed' is by C01_claim_appends_own_value." + CORR),
+ "C02": ("proof", "Props/C02.v: a single claim log that no step of any execution reorders, rewrites or shortens (append-only), whose length is the head counter; the order of accepted values is fixed at the claiming steps; every commit of a consumer moves its stream's cursor from p to exactly p+1 (also on the plain-store paths of single-consumer handles, by the proved sole-consumer invariant); with Props/C01.v: every stream delivers consecutive positions in delivery order and (move-out flavour) the value delivered for position p is the p-th claimed value, so every stream sees the one claim order. PARTIAL: producer order and real-time order relate the claim order to call/return events and are checked by the oracle on real traces; broadcast value identity through clones is step-level only (see C01)." + CORR),
  "C03": ("proof", "Props/C03.v: (1) the window invariant, for every configuration, population of handles and interleaving of micro-steps (states in the middle of calls included): no registered stream's cursor is ahead of the head counter and head <= cursor + N for every registered stream (at most N claimed-but-unconsumed values per stream); a sender about to claim (plain store or compare-exchange) claims a position < cursor + N for every registered stream, so the slot of an unconsumed value is never claimed again; a consumer that matched the tag of its position reads a claimed position. Proved by induction over the restricted reachability mreachN = all micro-steps except the publishing compare-exchange of add_stream succeeding after the parent cursor moved (exactly known finding F11, named by the predicate f11_bad); an Example shows that with that one step the statement is false in the model (the F11 witness), so the exclusion is necessary, and a second Example exhibits a covered state with the ring exactly full. (2) capacity = least power of two >= max(1, request) for all requests below 2^62-1; exact meaning of the producers' full test and of the scan distance under the no-wrap bound. PARTIAL: counters are assumed below 2^62 (stated in the theorems: fewer than 2^62 handles ever created and fewer than 2^62 values ever claimed), i.e. the 63-bit wrap-around of positions is not covered; that a slot's payload is not dropped or overwritten while unconsumed additionally needs the slot/tag invariant (C01/C04), which is not proved." + CORR),
+ "C04": ("proof", "Props/C04.v, over mreachN (all configurations, populations, interleavings; without the F11 step; counters below 2^62): a consumer between reading a cell and committing (cloning, viewing, about to commit) whose stream's cursor still is its attempt position holds exactly the value the claiming send of that position wrote - one send's whole value, written before that send published the tag; a consumer that matched a tag looks at a slot that has been written and is not older than its position, and its position is claimed; a send that has claimed and not yet published (about to write the cell, or just wrote it) holds a position not behind any cursor and less than N ahead of every registered cursor, and no other send in progress shares its slot - so the cell it overwrites holds a value every stream has consumed. PARTIAL: that the cell stays untouched for the whole duration of a clone/view by a consumer that shares its stream (reference-count/pin invariant) and that the value has not been dropped (ownership ledger) are not proved: the model flags such accesses (g_bad) and the correspondence and oracle decide them on real traces." + CORR),
  "C07": ("proof", "Props/C07.v: in every reachable state the writers counter that receivers test before reporting the end equals the number of live sender handles, through clones and drops at any moment; a live sender handle keeps it positive; once it is zero no step makes it non-zero again (the end is final). PARTIAL: 'the stream is drained when the end is reported' is not proved." + CORR),
  "C10": ("proof", "Props/C10.v: the allocating step of add_stream initialises the new cursor with the parent's cursor as it is at that step; no step of any agent writes the cursor of a stream still in flight (only its creator knows it), so it is published with exactly that position; a published stream is in the published list as long as its creator or a handle holds it. Backpressure for the new stream: the window invariant of Props/C03.v (head <= cursor + N for every registered stream, new ones included) holds in every execution without the F11 step. PARTIAL: gap-free delivery from there on is not proved (for a parent shared with a concurrently receiving sibling the start position is stale: known finding F11)." + CORR),
  "C16": ("proof", "Props/C16.v (the part of the argument that does not depend on the epoch protocol): stream-list identifiers are allocated fresh, a list is never modified after allocation, the published identifier and every identifier an agent works on are allocated ones, and the list a publishing compare-exchange installs is the list it read plus/minus one stream - so the pointer re-validation of a scan compares identities of unmodified lists. PARTIAL: 'no freed object is ever dereferenced or freed twice' (epoch invariant I10) is not proved; the model flags such accesses and the correspondence compares them with the quarantine allocator of the harness." + CORR),
@@ -34,7 +35,7 @@ P = {
  "C15": ("proof", "Props/C15.v: in every reachable state a task call (poll, start_send, poll_complete) is never at a program counter of the blocking wait strategies (no condvar wait, no Wait::wait loop inside the call). PARTIAL: NotReady identity and equality with the plain handles are not proved." + CORR),
  "C18": ("proof", "Props/C18.v: in every reachable state an agent inside try_send/try_recv/try_recv_view is never at a program counter of a wait strategy, of the futures park path or of the futures send loop; the control invariant (well-formed call stack, call/program-counter/side consistency) holds for all agents. PARTIAL: bounded solo termination (ranking function) is not proved." + CORR),
 }
-OTHER = ["C04", "C05", "C06", "C09", "C14", "C17"]
+OTHER = ["C05", "C06", "C09", "C14", "C17"]
 
 checks = []
 for pid in ["C%02d" % i for i in range(1, 19)]:
@@ -45,7 +46,7 @@ for pid in ["C%02d" % i for i in range(1, 19)]:
     else:
         cat = "other"
         text = ("No theorem of its own yet. " + propcfg.NO_THEOREM[pid] + ". Theorems proved about the same model that the check rests on: control invariant "
-                "(Ctl.v), writers-count invariant (InvWriters.v), head = |claim log| (InvHead.v).")
+                "(Ctl.v), writers-count invariant (InvWriters.v), head = |claim log| (InvHead.v), window invariant (InvWin.v), slot invariant (InvSlot.v).")
         tech = "per-step correspondence between the real code and the executable Coq model + property oracle on real traces (no property theorem yet)"
         note = TB + " For this property the Coq development contributes the executable model only."
     checks.append({
